@@ -211,8 +211,22 @@ def save_text(a, style, via, tmpdir=None):
     f = io.StringIO()
     if via == "method":
         a.save_lmpdat(f, **kw)
-    else:
+    elif via == "save_load_fileobj":
         a.save(f, filetype="lmpdat", **kw)
+    else:
+        # through Atoms.save with a path (str or pathlib), options passed along
+        import os
+        import pathlib
+        import shutil
+        import tempfile
+        d = tempfile.mkdtemp(prefix="vmon-c13-")
+        try:
+            p = os.path.join(d, "out.lmpdat")
+            a.save(p if len(a) % 2 else pathlib.Path(p), **kw)
+            with open(p) as fh:
+                return fh.read()
+        finally:
+            shutil.rmtree(d, ignore_errors=True)
     return f.getvalue()
 
 
@@ -306,6 +320,11 @@ def run_case(case, ctx):
             st.seen("tables", k)
     if len(a.pair_coeffs):
         st.seen("tables", "pair")
+    # the title line must carry the requested comment (read_data ignores it, but the option has to reach the writer)
+    if len(a) % 3 == 0:
+        fc = ["UiO-66 linker", "structure 12", "generated by the harness, step 3"][len(a) % 9 // 3]
+        if not t1.split("\n")[0].startswith(fc):
+            fail("the title line is %r although file_comment=%r was requested (via %s)" % (t1.split("\n")[0], fc, case["via"]), "file_comment")
     if case["cell"] == "tri" or ntab >= 2:
         ctx.nontrivial(case["s"])
     if case["cell"] == "tri" and ntab >= 2:
